@@ -97,6 +97,31 @@ EXTERNALS = {
     "std::option::Option::is_none": M("core::option"),
     "std::option::Option::ok_or": M("core::option"),
     "std::option::Option::take": M("core::option", writes=True),
+    "<std::option::Option<T> as std::ops::Try>::branch": M("core::option: the ? operator"),
+    "<std::option::Option<T> as std::ops::FromResidual<std::option::Option<std::convert::Infallible>>>::from_residual": M("core::option: the ? operator"),
+    "std::option::Option::map_or": M("core::option: default or f(x)", closures=True),
+    "std::option::Option::map_or_else": M("core::option: d() or f(x)", closures=True),
+    "std::option::Option::ok_or_else": M("core::option", closures=True),
+    "std::option::Option::unwrap_or": M("core::option"),
+    "std::option::Option::unwrap_or_else": M("core::option", closures=True),
+    "std::option::Option::filter": M("core::option", closures=True),
+    "std::option::Option::as_ref": M("core::option: &Option<T> -> Option<&T>", ret_from=(0,)),
+    "std::option::Option::as_mut": M("core::option: &mut Option<T> -> Option<&mut T>", ret_from=(0,)),
+    "std::result::Result::as_ref": M("core::result", ret_from=(0,)),
+    "std::result::Result::as_mut": M("core::result", ret_from=(0,)),
+    "std::result::Result::and_then": M("core::result", closures=True),
+    "std::result::Result::map_or": M("core::result", closures=True),
+    "std::result::Result::map_or_else": M("core::result", closures=True),
+    "core::bool::<impl bool>::then_some": M("core::bool"),
+    "core::bool::<impl bool>::then": M("core::bool", closures=True),
+    "std::ptr::eq": M("core::ptr: address comparison"),
+    "std::ptr::addr_eq": M("core::ptr: address comparison"),
+    "std::fmt::DebugMap::entry": M("core::fmt: formats key and value through their Debug impls (reads only)", user=True, traits=("std::fmt::Debug",)),
+    "std::fmt::DebugMap::key": M("core::fmt", user=True, traits=("std::fmt::Debug",)),
+    "std::fmt::DebugMap::value": M("core::fmt", user=True, traits=("std::fmt::Debug",)),
+    "std::fmt::DebugList::entry": M("core::fmt", user=True, traits=("std::fmt::Debug",)),
+    "std::fmt::DebugSet::entry": M("core::fmt", user=True, traits=("std::fmt::Debug",)),
+    "std::fmt::DebugStruct::field": M("core::fmt", user=True, traits=("std::fmt::Debug",)),
     "std::result::Result::unwrap": M("core::result: panics on Err (Debug of E)", panics=True, payload="Ok"),
     "std::result::Result::expect": M("core::result: panics on Err", panics=True),
     "std::result::Result::unwrap_unchecked": M("core::result: UB on Err", payload="Ok"),
